@@ -139,6 +139,8 @@ def to_json_spec(spec, env):
     d["propositions"] = [to_json_spec(c, env) for c in spec["ch"]]
     if t in ("AtLeast", "AtMost"):
         d["value"] = P(env, spec["value"])
+    if t == "AtLeast" and spec.get("sign") is not None:
+        d["sign"] = P(env, spec["sign"])
     return d
 
 
